@@ -13,12 +13,17 @@ KINDS = [
     ]),
     P('After', inputs=[inp('Kinds')], params=[par('z', default=1.5)]),
 ]
+ODD = [
+    P('Load_Features', group='pre:io', params=[par('x')]),
+    P('HTTPFetch', params=[par('y', default=1)], inputs=[inp('Load_Features')]),
+    P('X2Y_Task', inputs=[inp('HTTPFetch')], data='dir'),
+]
 OBJS = [
-    P('Objs', params=[par('custom'), par('auto'), par('cdef'), par('plain'), par('objs')]),
+    P('Objs', params=[par('custom'), par('auto'), par('cdef'), par('plain'), par('objs'), par('loc')]),
     P('Down', inputs=[inp('objs', 'name')], data='dir'),
 ]
 PIPES = {'chain3': family.CHAIN3, 'diamond': family.DIAMOND, 'optional': family.OPTIONAL, 'pattern': family.PATTERN,
-         'kinds': KINDS, 'objs': OBJS}
+         'kinds': KINDS, 'objs': OBJS, 'odd': ODD}
 
 
 
@@ -51,6 +56,7 @@ def ref_values(pipe, vals, pr):
         pl = vals['plain']
         rv['plain'] = Fixed('ref.pobjects.Plain(' + KS.vrepr(pl['args'][0]) + ', ' + KS.vrepr(pl['args'][1]) + ', kw='
                             + KS.vrepr(pl['kwargs']['kw']) + ')')
+        rv['loc'] = Fixed('Loc(root=' + pr(vals['loc']._root) + ')')
         o = vals['objs']
         rv['objs'] = [Fixed('Custom(a=1, b=2)'), Fixed('Custom(a=' + pr(o[1]['args'][0]) + ', b=0)')]
     return rv
